@@ -1,6 +1,5 @@
 package main
 
-func genFacts(c *ctx, s *schema)                       {}
 func genResolver(c *ctx, s *schema)                    {}
 func genFormatter(c *ctx, s *schema)                   {}
 func genGrammar(c *ctx, s *schema, which string)       {}
